@@ -1112,13 +1112,13 @@ pub fn check(tier: Tier) -> ! {
             });
         }
         fam("shared-directory", &mut jobs, &|j| shared_dir_jobs(j));
-        fam("portfolio", &mut jobs, &|j| portfolio_jobs(j, thorough));
         // solo runs of the portfolio members (their verdicts define what the portfolio must do)
         fam("portfolio-member-solo", &mut jobs, &|j| {
             for s in &solo_scheds {
                 j.push(vec![run(Kind::Order, Pers::None, s)]);
             }
         });
+        fam("portfolio", &mut jobs, &|j| portfolio_jobs(j, thorough));
         for n in 0..=1 {
             fam(&format!("dfs1/representative/{}-earlier/same-thread", n), &mut jobs, &|j| {
                 family(j, &finals, &representative, n, &Sched::Dfs1, None, false)
@@ -1140,13 +1140,13 @@ pub fn check(tier: Tier) -> ! {
             });
         }
         fam("shared-directory", &mut jobs, &|j| shared_dir_jobs(j));
-        fam("portfolio", &mut jobs, &|j| portfolio_jobs(j, thorough));
         // solo runs of the portfolio members (their verdicts define what the portfolio must do)
         fam("portfolio-member-solo", &mut jobs, &|j| {
             for s in &solo_scheds {
                 j.push(vec![run(Kind::Order, Pers::None, s)]);
             }
         });
+        fam("portfolio", &mut jobs, &|j| portfolio_jobs(j, thorough));
         fam("rr/all-kinds/2-earlier", &mut jobs, &|j| {
             family(j, &finals, &full_alphabet, 2, &Sched::RR, None, true)
         });
@@ -1313,7 +1313,7 @@ pub fn check(tier: Tier) -> ! {
     }
 
     // ---- portfolios ----
-    let (pf_runs, pf_classes) = judge_portfolios(&results, &solo, &mut res);
+    let (pf_runs, pf_classes) = judge_portfolios(&results, &solo, capped, &mut res);
 
     // ---- coverage ----
     let mut distinct_nontrivial = classes.len() as u64 + pf_classes;
@@ -1396,7 +1396,12 @@ pub fn check(tier: Tier) -> ! {
 /// solo runs of the same body under the same scheduler). Emission / replay of a failing portfolio
 /// were judged in `judge_history` with the single-run rules (None: nothing; Print / File: at least
 /// one schedule in the configured place, one of which replays to the body's own payload).
-fn judge_portfolios(results: &[Option<HistoryResult>], solo: &BTreeMap<Sched, bool>, res: &mut CheckResult) -> (u64, u64) {
+fn judge_portfolios(
+    results: &[Option<HistoryResult>],
+    solo: &BTreeMap<Sched, bool>,
+    capped: bool,
+    res: &mut CheckResult,
+) -> (u64, u64) {
     let mut n = 0u64;
     let mut classes: BTreeSet<(String, String)> = BTreeSet::new();
     let have_pass = solo.values().any(|v| !*v);
@@ -1433,7 +1438,10 @@ fn judge_portfolios(results: &[Option<HistoryResult>], solo: &BTreeMap<Sched, bo
             match solo.get(m) {
                 Some(v) => verdicts.push(*v),
                 None => {
-                    res.machinery_errors.push(format!("no solo verdict for member {:?}", m));
+                    if !capped {
+                        res.machinery_errors.push(format!("no solo verdict for member {:?}", m));
+                    }
+                    // (under a wall-clock cap the solo runs may not have been reached: nothing is judged)
                     return (n, classes.len() as u64);
                 }
             }
@@ -1506,7 +1514,7 @@ fn judge_portfolios(results: &[Option<HistoryResult>], solo: &BTreeMap<Sched, bo
         }
         res.finding(key, what, replay);
     }
-    if any_pf && !(have_pass && have_fail) {
+    if any_pf && !capped && !(have_pass && have_fail) {
         res.machinery_errors.push(format!(
             "portfolio members do not cover both verdicts (solo verdicts: {:?}); the 'exactly one / none / both fail' cases are not all exercised",
             solo
